@@ -70,6 +70,24 @@ def run(ctx):
     impl = C.run_impl(enc_cases, ctx.wd, "enc")
     model = C.run_model(enc_cases, ctx.wd, "enc")
     core.compare(ctx, "bytes(a)-encode", enc_cases, impl, model)
+    # encode again after a failed attempt on the same thread (a writer that fails after k bytes):
+    # what is produced must be the same bytes
+    fcases, fwant = [], []
+    for r, line in zip(recs, impl):
+        if len(r) > 3000 or line == "panic" or line.startswith("err"):
+            continue
+        nb = (len(line.split()[0]) - 1) // 2
+        for k in sorted(set([0, 1, 4, nb // 2, max(0, nb - 8), max(0, nb - 1)])):
+            fcases.append("ENCF %d %s" % (k, r)); fwant.append(line)
+    fi = C.run_impl(fcases, ctx.wd, "encf")
+    fm = C.run_model(fcases, ctx.wd, "encf")
+    core.compare(ctx, "bytes(a)-encode-after-failed-encode", fcases, fi, fm)
+    for c, a, w in zip(fcases, fi, fwant):
+        if a != w:
+            ctx.fail("oracle", "encoding a record right after a failed encode on the same thread gives other bytes than encoding it afresh",
+                     dict(kind="bytes", case=c[:4000], observed=a[:2000], expected=w[:2000]))
+            break
+    ctx.count("enc_after_failure", len(fcases))
     # pass 2: decode the implementation's own encodings, and a malformed stream
     dec_inputs, origin = [], []
     per = ctx.scale(3, 12)
